@@ -76,6 +76,8 @@ def replay(ctx, binp, runs, label, timeout="2s"):
     out = os.path.join(ctx.scratch, "replay-%s.json" % label)
     ctx.run([binp, "replay", "-in", runs, "-out", out, "-timeout", timeout, "-workers", str(max(2, ctx.cores - 2))])
     res = json.load(open(out))
+    res["history_file"] = out + ".history.ndjson"
+    res["runs_file"] = runs
     ctx.replayed += res["behaviours"]
     ctx.log("replayed %d behaviours (%d steps) [%s]: %d mismatches, %d unconfirmed" %
             (res["behaviours"], res["steps"], label, len(res.get("mismatches") or []), res.get("unconfirmed", 0)))
@@ -308,6 +310,60 @@ def parse_steps(text):
     return out
 
 
+def linearizable(ctx, res, origin):
+    """C02: the client histories recorded during the replay (writes with their responses, one read per serving
+    leader after every step) must be linearizable; TLC searches the linearization points (LinTrace.tla).
+    A rejected history of a behaviour in which a known-finding trigger occurred is attributed to it."""
+    hf = res.get("history_file")
+    if not hf or not os.path.exists(hf):
+        return
+    lines = open(hf).read().splitlines()
+    if not lines:
+        return
+    behs = None
+    listed = {f["id"]: f for f in vf.findings_for("C02")}
+    all_listed = {f.get("id") for f in vf.load_known_findings().get("findings", [])}
+    accepted = 0
+    for _ in range(12):
+        tp = os.path.join(ctx.scratch, "hist-%s.ndjson" % origin)
+        open(tp, "w").write("\n".join(lines) + "\n")
+        r = ctx.tlc("LinTrace", "lin-trace.cfg", files=[(tp, "trace.ndjson")], workers=1, deque=True,
+                    label="lin-" + origin, seed=False, allow_violation=True, timeout=600)
+        n = sum(1 for x in lines if '"reset"' in x)
+        if r.ok:
+            accepted += n
+            break
+        hw = 0
+        for l in r.out.splitlines():
+            if l.startswith('<<"REJECTED"'):
+                hw = int(l.split(",")[1])
+        bad = max(0, min(hw, len(lines)) - 1)
+        start = max(j for j in range(bad + 1) if '"reset"' in lines[j])
+        end = next((j for j in range(bad + 1, len(lines)) if '"reset"' in lines[j]), len(lines))
+        idx = json.loads(lines[start])["op"]
+        if behs is None:
+            behs = open(res["runs_file"]).read().splitlines()
+        beh = json.loads(behs[idx])
+        kf = sorted({k for s in beh if s.get("exp") for k in s["exp"].get("kf", [])})
+        hist = [json.loads(x) for x in lines[start:end]]
+        calls = " ".join(describe(x) for x in beh if x["a"] != "Idle")
+        if kf and all(i in all_listed for i in kf) and any(i in listed for i in kf):
+            for i in [x for x in kf if x in listed]:
+                if not any(k.startswith(i + ":") for k in ctx.known):
+                    ctx.known_finding("%s: %s [client history not linearizable after: %s]" % (i, listed[i]["what"], calls[:600]))
+        else:
+            p = ctx.save_replay("%s-history-%d.json" % (origin, idx), {"behaviour": beh, "history": hist, "rejected_at": bad - start})
+            ev = hist[bad - start]
+            ctx.violation("client history of the real nodes is not linearizable (event #%d %s of node %s returned %s) after: %s"
+                          % (bad - start, ev.get("ev"), ev.get("node"), ev.get("res"), calls[:1200]), p)
+        accepted += sum(1 for x in lines[:start] if '"reset"' in x)
+        lines = lines[end:]
+        if not lines:
+            break
+    ctx.traces_validated += accepted
+    ctx.log("%d client histories accepted as linearizable by LinTrace [%s]" % (accepted, origin))
+
+
 def run(ctx, pid):
     quick = ctx.tier == "quick"
     ctx.assumptions += [
@@ -335,6 +391,8 @@ def run(ctx, pid):
     res = replay(ctx, binp, runs, "sim")
     other = report(ctx, pid, res, "sim")
     reached = findings_reached(ctx, pid, runs, res, "sim")
+    if pid == "C02":
+        linearizable(ctx, res, "sim")
     # the same with a spare node and a node swap (ensemble change, removed node deleted after the election)
     r = ctx.tlc("OxiaShardSim", "shard-runs-swap.cfg", simulate="num=%d" % (num // 4), depth=56, workers=1, label="simswap")
     sruns = os.path.join(ctx.scratch, "runs-swap.ndjson")
@@ -342,6 +400,8 @@ def run(ctx, pid):
         sres = replay(ctx, binp, sruns, "sim-swap")
         other += report(ctx, pid, sres, "simswap")
         reached |= findings_reached(ctx, pid, sruns, sres, "simswap")
+        if pid == "C02":
+            linearizable(ctx, sres, "simswap")
     # witness schedules (shortest behaviours reaching each branch condition of the specification)
     wruns = os.path.join(ctx.scratch, "witness.ndjson")
     nw, names = witness_runs(ctx, wruns)
@@ -349,6 +409,8 @@ def run(ctx, pid):
         wres = replay(ctx, binp, wruns, "witness")
         other += report(ctx, pid, wres, "witness")
         reached |= findings_reached(ctx, pid, wruns, wres, "witness")
+        if pid == "C02":
+            linearizable(ctx, wres, "witness")
         ctx.notes["known_findings_reproduced"] = sorted(reached)
         # ... and random continuations from the states the witnesses reach
         cruns = os.path.join(ctx.scratch, "wsim.ndjson")
@@ -357,6 +419,8 @@ def run(ctx, pid):
             cres = replay(ctx, binp, cruns, "witness-continuations")
             other += report(ctx, pid, cres, "wcont")
             reached |= findings_reached(ctx, pid, cruns, cres, "wcont")
+            if pid == "C02":
+                linearizable(ctx, cres, "wcont")
         ctx.notes["witness_schedules"] = names
     # steps that are atomic in the specification, issued concurrently on the real nodes
     rpath = os.path.join(ctx.scratch, "races.ndjson")
